@@ -152,27 +152,65 @@ Proof.
   - split; [apply final_maximal; split; [reflexivity | left; reflexivity] | reflexivity].
 Qed.
 
-(** [ParseFile] on an unreadable path, draining consumer: one rendezvous, then
-    the consumer waits forever although the producer has exited *)
+(** [ParseFile] on an unreadable path (after F23: the error, then Done), draining
+    consumer: two rendezvous, the consumer has returned, the producer has exited *)
+Example ex_unreadable_sends : file_sends ZNum None = [MErr ChIO; MDone].
+Proof. reflexivity. Qed.
+
 Example ex_unreadable_drain :
   exists s,
-    steps ZNum DrainUntilDone 1 (init ZNum (file_sends ZNum None) 0 0) s /\
-    maximal ZNum DrainUntilDone s /\ deadlocked ZNum s /\ obs ZNum s = [MErr ChIO] /\ pending ZNum s = [].
+    steps ZNum DrainUntilDone 2 (init ZNum (file_sends ZNum None) 0 0) s /\
+    maximal ZNum DrainUntilDone s /\ ~ deadlocked ZNum s /\ cons ZNum s = Returned /\
+    obs ZNum s = [MErr ChIO; MDone] /\ pending ZNum s = [] /\ count_errs ZNum (obs ZNum s) = 1.
 Proof.
   eexists. split.
-  - unfold init, file_sends. rendezvous. apply steps_O.
-  - split; [apply final_maximal; split; [reflexivity | right; split; reflexivity]|].
+  - unfold init, file_sends. rendezvous. rendezvous. apply steps_O.
+  - split; [apply final_maximal; split; [reflexivity | left; reflexivity]|].
+    split; [intros [Hc _]; discriminate|]. repeat split.
+Qed.
+
+(** another interleaving (budgets 1/2) of the same: the hypotheses of
+    [drain_unreadable_file_terminates] are met, its conclusion is that observation *)
+Example ex_unreadable_drain' :
+  exists s,
+    steps ZNum DrainUntilDone 5 (init ZNum (file_sends ZNum None) 1 2) s /\
+    maximal ZNum DrainUntilDone s /\ cons ZNum s = Returned /\ obs ZNum s = [MErr ChIO; MDone].
+Proof.
+  eexists. split.
+  - unfold init, file_sends. cons_tau. rendezvous. prod_tau. cons_tau. rendezvous. apply steps_O.
+  - split; [apply final_maximal; split; [reflexivity | left; reflexivity]|].
     repeat split.
 Qed.
 
-(** same path, documented loop: returns on the error *)
+Example ex_unreadable_drain_end_to_end :
+  forall pt ct s,
+    reachable ZNum DrainUntilDone (init ZNum (file_sends ZNum None) pt ct) s ->
+    maximal ZNum DrainUntilDone s ->
+    cons ZNum s = Returned /\ obs ZNum s = [MErr ChIO; MDone] /\ pending ZNum s = [] /\ ~ deadlocked ZNum s.
+Proof. exact (drain_unreadable_file_terminates ZNum). Qed.
+
+(** same path, documented loop: returns on the error; the producer keeps the
+    [MDone] it cannot deliver (as after every [ParseStream] error) *)
 Example ex_unreadable_stop :
   exists s,
     steps ZNum StopAtFirstError 1 (init ZNum (file_sends ZNum None) 0 0) s /\
-    maximal ZNum StopAtFirstError s /\ cons ZNum s = Returned /\ obs ZNum s = [MErr ChIO].
+    maximal ZNum StopAtFirstError s /\ cons ZNum s = Returned /\ obs ZNum s = [MErr ChIO] /\
+    pending ZNum s = [MDone].
 Proof.
   eexists. split.
   - unfold init, file_sends. rendezvous. apply steps_O.
   - split; [apply final_maximal; split; [reflexivity | left; reflexivity]|].
     repeat split.
+Qed.
+
+(** [drain_file] on a readable file with a late syntax error *)
+Example ex_late_drain_file :
+  forall pt ct s,
+    reachable ZNum DrainUntilDone (init ZNum (file_sends ZNum (Some (ex_late, NoFault))) pt ct) s ->
+    maximal ZNum DrainUntilDone s ->
+    cons ZNum s = Returned /\ pending ZNum s = [] /\ obs ZNum s = [MNode node_a; MErr bad5; MDone].
+Proof.
+  intros pt ct s H Hmax.
+  destruct (drain_file ZNum _ _ _ _ H Hmax) as [Hc [Hp [Ho _]]].
+  cbn [file_sends] in Ho. rewrite ex_late_sends in Ho. auto.
 Qed.
